@@ -1,4 +1,5 @@
 import IceProofs.AgentC03Send
+import IceProofs.AgentAuto
 /-!
 # C03 — the timer path (`pingAll`, `validateSelected`, `keepalive`, `nominate`, `contactCandidates`,
 `contact`, `runForced`, `runTimers`) never selects, never validates a pair, keeps ghost flags
@@ -181,6 +182,61 @@ theorem valKeep_hok {wp : Prop} (a : Agent) (now : Nat) : HOK wp False a (valKee
     exact h1.seq h2
   · exact h1
 
+/-! ## automatic renomination -/
+
+theorem autoClosed_hok {wp : Prop} (a : Agent) (now : Nat) (hc : a.controlling = true) :
+    IceProofs.Auto.AutoParts now (fun r => HOK wp True a r) where
+  mark := fun b o id p h hb hw =>
+    HOK.andThen h (modPair_state_pres b id p _ hb (by rw [hw]; decide) (by decide)) rfl rfl
+  ping := fun b _ l r h _ _ => HOK.seq h (ping_hok b now l r)
+  time := fun _ _ h => HOK.andThen h (Pres.of_eq rfl rfl rfl rfl fun _ => rfl) rfl rfl
+  count := fun _ _ h => HOK.andThen h (Pres.of_eq rfl rfl rfl rfl fun _ => rfl) rfl rfl
+  issue := fun b _ l r nom h _ _ _ _ _ => HOK.seq h (sendRequest_hok b now l r true nom (fun _ => h.ctl.trans hc))
+  log := fun _ _ _ h => HOK.andThen h (Pres.of_eq rfl rfl rfl rfl fun _ => rfl) rfl rfl
+
+theorem autoRenom_hok {wp : Prop} (a : Agent) (now : Nat) (hc : a.controlling = true) :
+    HOK wp True a (a.autoRenom now) :=
+  IceProofs.Auto.autoRenom_parts (autoClosed_hok a now hc) a (HOK.refl _ _ _)
+
+/-- the block "validateSelectedPair; checkKeepalive; automatic renomination" of the controlling selector -/
+def valKeepAuto (a : Agent) (now : Nat) : Agent × List Out :=
+  let (a, o, ok) := a.validateSelected now
+  if ok then let (a, o') := a.keepalive now; let (a, o'') := a.autoRenom now; (a, o ++ o' ++ o'') else (a, o)
+
+theorem valKeepAuto_hok {wp : Prop} (a : Agent) (now : Nat) (hc : a.controlling = true) :
+    HOK wp False a (valKeepAuto a now) := by
+  unfold valKeepAuto
+  have h1 := validateSelected_hok (wp := wp) a now
+  rcases hv : a.validateSelected now with ⟨a1, o1, ok⟩
+  rw [hv] at h1
+  simp only []
+  split
+  · have h2 := keepalive_hok (wp := wp) (ex := False) a1 now
+    rcases hk : a1.keepalive now with ⟨a2, o2⟩
+    rw [hk] at h2
+    have h3 := (autoRenom_hok (wp := wp) a2 now (h2.ctl.trans (h1.ctl.trans hc))).weaken id False.elim
+    rcases hr : a2.autoRenom now with ⟨a3, o3⟩
+    rw [hr] at h3
+    exact (h1.seq h2).seq h3
+  · exact h1
+
+/-- with the automatic option off the controlling selector's block is the plain one -/
+theorem valKeepAuto_off (a : Agent) (now : Nat) (h : (a.cfg.autoRenom && a.cfg.enableRenomination) = false) :
+    valKeepAuto a now = valKeep a now := by
+  unfold valKeepAuto valKeep
+  have h1 := (validateSelected_hok (wp := True) a now).cfg
+  rcases hv : a.validateSelected now with ⟨a1, o1, ok⟩
+  rw [hv] at h1
+  simp only [] at h1 ⊢
+  split
+  · have h2 := (keepalive_hok (wp := True) (ex := False) a1 now).cfg
+    rcases hk : a1.keepalive now with ⟨a2, o2⟩
+    rw [hk] at h2
+    simp only [] at h2 ⊢
+    rw [IceProofs.Auto.autoRenom_off a2 now (by rw [h2, h1]; exact h)]
+    simp
+  · rfl
+
 /-! ## `contactCandidates`, `contact`, `runForced`, `runTimers` -/
 
 theorem contactCandidates_hok {wp : Prop} (a : Agent) (now : Nat) : HOK wp False a (a.contactCandidates now) := by
@@ -188,7 +244,7 @@ theorem contactCandidates_hok {wp : Prop} (a : Agent) (now : Nat) : HOK wp False
   split
   · rename_i hc
     split
-    · exact valKeep_hok a now
+    · exact valKeepAuto_hok a now hc
     · split
       · exact nominate_hok _ _ _ hc
       · split
